@@ -1,8 +1,15 @@
 (* C07 — parallel execution yields the same results as sequential execution.
    Only statements here; the model is Model/Parallel.v, proofs live in Proofs/Parallel*.v. *)
 From Coq Require Import ZArith List Bool Lia PeanoNat Permutation.
-From PyxelV Require Import Model.Parallel Proofs.ParallelParams Proofs.ParallelSched Proofs.ParallelRng.
+From PyxelV Require Import Model.Parallel Proofs.ParallelParams Proofs.ParallelSched Proofs.ParallelRng
+     Proofs.ParallelFull.
+From PyxelGen Require Import Gen_C07.
 Import ListNotations.
+
+(* `src_cfg : dask_cfg` (Gen_C07.v) is regenerated from the source on every run by translator/c07.py: how
+   create_params of the three modes builds the parameter array and how the dask path binds the values of a cell
+   to the parameter keys.  Section 1-2 state the theorems for EVERY configuration with the properties they need;
+   section 4 (end of the file) instantiates them with the configuration the code has now. *)
 
 (* ===================================================================== 1. the parameter arrays *)
 
@@ -41,51 +48,52 @@ Example C07_product_nonvacuous :
   = [[PS 3; PS 100]; [PS 3; PS 200]; [PS 1; PS 100]; [PS 1; PS 200]; [PS 2; PS 100]; [PS 2; PS 200]].
 Proof. vm_compute. split; reflexivity. Qed.
 
-(* FULL statement for product mode: whatever the sequential path runs, the parallel path has a cell for *)
-Definition C07_params_agree_product_full : Prop :=
-  forall vs, exists sh cells, dask_params (Product vs) = Some (sh, cells)
-                         /\ Permutation cells (seq_params (Product vs)).
+(* product mode, FULL (round 2, after the repair of C07-product-duplicate-values: the levels are de-duplicated
+   like dict.fromkeys before pandas sees them): for EVERY list of value lists -- repeats included -- the parallel
+   path builds an array; its cells are exactly the value tuples the sequential path runs (as a set: the non-dask
+   result has one coordinate per distinct value too), no cell occurs twice, one cell per entry of the shape; and
+   when no list repeats a value the cells are a permutation of the sequential runs *)
+Theorem C07_product_mode :
+  forall c vs, cfg_prod c = LevelsDedup ->
+  exists sh cells,
+    dask_params_cfg c (Product vs) = Some (sh, cells)
+    /\ (forall t, In t cells <-> In t (seq_params (Product vs)))
+    /\ NoDup cells
+    /\ length cells = prodn sh
+    /\ (forallb nodupb vs = true -> Permutation cells (seq_params (Product vs))).
+Proof. intros c vs H. simpl. rewrite H. apply product_dedup_full. Qed.
+Print Assumptions C07_product_mode.
 
-(* refuted on the unchanged tree: a value that occurs twice in one list makes create_params raise
-   (pandas: non-unique MultiIndex), the sequential path runs it *)
-Theorem C07_params_agree_product_refuted : ~ C07_params_agree_product_full.
+Example C07_product_mode_nonvacuous :
+  dask_params_cfg cfg_repaired (Product [[PS 1; PS 1; PS 2]; [PS 5; PS 3]])
+  = Some ([2; 2], [[PS 1; PS 3]; [PS 1; PS 5]; [PS 2; PS 3]; [PS 2; PS 5]])
+  /\ dask_params_cfg cfg_round1 (Product [[PS 1; PS 1; PS 2]; [PS 5; PS 3]]) = None.
+Proof. vm_compute. split; reflexivity. Qed.
+
+(* why the row matters: with the raw levels (round 1) a repeated value makes create_params refuse *)
+Theorem C07_product_raw_levels_refuse :
+  forall c, cfg_prod c = LevelsRaw -> dask_params_cfg c (Product [[PS 1; PS 1; PS 2]]) = None.
+Proof. intros c H. simpl. rewrite H. reflexivity. Qed.
+Print Assumptions C07_product_raw_levels_refuse.
+
+(* ---- custom mode, FULL (round 2, after the repair of C07-custom-one-element-list: convert_custom_data returns a
+   bare number only for the placeholder "_" itself): any number of parameters, any widths (["_"] included), any
+   table (rows of any length): the parallel path runs exactly the rows of the sequential path, in order *)
+Theorem C07_custom_mode :
+  forall c ps table, cfg_custom c = ByPlaceholder ->
+  dask_params_cfg c (Custom ps table) = Some ([length table], seq_params (Custom ps table)).
 Proof.
-  intros H. destruct (H [[PS 1; PS 1; PS 2]]) as (sh & cells & E & _). vm_compute in E. discriminate.
+  intros c ps table H. simpl. rewrite H, map_length. f_equal. f_equal.
+  unfold seq_custom. apply map_ext. apply custom_row_placeholder.
 Qed.
-Print Assumptions C07_params_agree_product_refuted.
+Print Assumptions C07_custom_mode.
 
-(* strongest true restriction: no repeated value inside a list *)
-Theorem C07_params_agree_product_partial :
-  forall vs, forallb nodupb vs = true ->
-  exists sh cells, dask_params (Product vs) = Some (sh, cells) /\ Permutation cells (seq_params (Product vs))
-                   /\ length cells = prodn sh.
-Proof.
-  intros vs Hn. exists (map (@length pval) vs), (cart (map sort_level vs)).
-  assert (E : dask_product vs = Some (map (@length pval) vs, cart (map sort_level vs))).
-  { unfold dask_product, dask_product_gen. now rewrite Hn. }
-  destruct (product_params_agree sort_level nodupb sort_level_perm vs _ _ E) as (P & L & _).
-  repeat split; assumption.
-Qed.
-Print Assumptions C07_params_agree_product_partial.
-
-(* ---- custom mode, any number of parameters / widths / rows (rows of any length): *)
-Definition C07_params_agree_custom_full : Prop :=
-  forall ps table, dask_params (Custom ps table) = Some ([length table], seq_params (Custom ps table)).
-
-(* refuted: a parameter declared as a ONE-element list ["_"] receives a 1-element list from the
-   sequential path and a bare number from the dask path *)
-Theorem C07_params_agree_custom_refuted : ~ C07_params_agree_custom_full.
-Proof. intros H. specialize (H [CVec 1] [[5%Z]]). vm_compute in H. discriminate. Qed.
-Print Assumptions C07_params_agree_custom_refuted.
-
-Theorem C07_params_agree_custom_partial :
-  forall ps table, Forall (fun p => p <> CVec 1) ps ->
-  dask_params (Custom ps table) = Some ([length table], seq_params (Custom ps table)).
-Proof.
-  intros ps table H. unfold dask_params, seq_params. rewrite (custom_agree ps table H).
-  unfold seq_custom. now rewrite map_length.
-Qed.
-Print Assumptions C07_params_agree_custom_partial.
+(* why the row matters: with the len(params) == 1 test (round 1) a parameter declared ["_"] receives a bare number *)
+Theorem C07_custom_bylength_differs :
+  forall c, cfg_custom c = ByLength ->
+  dask_params_cfg c (Custom [CVec 1] [[5%Z]]) <> Some ([1], seq_params (Custom [CVec 1] [[5%Z]])).
+Proof. intros c H. simpl. rewrite H. vm_compute. discriminate. Qed.
+Print Assumptions C07_custom_bylength_differs.
 
 (* and the sequential slicing reads every column exactly once, in order (offset = sum of earlier widths) *)
 Theorem C07_custom_columns_in_order :
@@ -95,42 +103,86 @@ Proof. exact seq_custom_row_flat. Qed.
 Print Assumptions C07_custom_columns_in_order.
 
 Example C07_custom_nonvacuous :
-  dask_params (Custom [CScalar; CVec 2] [[1; 10; 20]; [2; 30; 40]]%Z)
-  = Some ([2], [[PS 1; PV [10; 20]]; [PS 2; PV [30; 40]]]%Z)
-  /\ Forall (fun p => p <> CVec 1) [CScalar; CVec 2].
-Proof. split; [vm_compute; reflexivity|]. repeat constructor; discriminate. Qed.
+  dask_params_cfg cfg_repaired (Custom [CScalar; CVec 2; CVec 1] [[1; 10; 20; 7]; [2; 30; 40; 8]]%Z)
+  = Some ([2], [[PS 1; PV [10; 20]; PV [7]]; [PS 2; PV [30; 40]; PV [8]]]%Z).
+Proof. vm_compute. reflexivity. Qed.
 
-(* ---- sequential mode.  FULL statement: the parallel path runs what the sequential path runs *)
-Definition C07_sequential_mode_full : Prop :=
-  forall defaults vs, length defaults = length vs ->
-  exists sh cells, dask_params (Sequential defaults vs) = Some (sh, cells)
-                   /\ Permutation cells (seq_params (Sequential defaults vs)).
+(* ---- sequential mode, FULL (round 2, after the repair of C07-sequential-mode-zips: create_params takes its rows
+   from get_parameters_item, the generator of the non-dask path): any number of parameters, any lengths, any
+   defaults: the parallel path runs exactly the runs of the sequential path, in the same order under the same id *)
+Theorem C07_sequential_mode :
+  forall c defaults vs, cfg_seq c = SeqEnumerate ->
+  dask_params_cfg c (Sequential defaults vs)
+  = Some ([length (seq_params (Sequential defaults vs))], seq_params (Sequential defaults vs)).
+Proof. intros c d vs H. simpl. rewrite H. reflexivity. Qed.
+Print Assumptions C07_sequential_mode.
 
-(* refuted (DESIGN section 7, F12): with dask, SequentialMode.create_params zips the lists -- 2 runs
-   (1,100) (2,200) instead of the 3 + 2 runs of the sequential path *)
-Theorem C07_sequential_mode_refuted : ~ C07_sequential_mode_full.
+(* what those runs are: there are (sum of the lengths) of them, and the run with index (values listed before
+   parameter k) + j sets parameter k to its j-th value and leaves every other parameter at its default *)
+Theorem C07_sequential_one_at_a_time :
+  forall (defaults : list pval) vs,
+  length (seq_params (Sequential defaults vs)) = list_sum (map (@length pval) vs)
+  /\ forall k j l v, nth_error vs k = Some l -> nth_error l j = Some v -> k < length defaults ->
+       exists run, nth_error (seq_params (Sequential defaults vs)) (list_sum (map (@length pval) (firstn k vs)) + j) = Some run
+                   /\ nth_error run k = Some v
+                   /\ length run = length defaults
+                   /\ forall k', k' <> k -> nth_error run k' = nth_error defaults k'.
 Proof.
-  intros H. destruct (H [PS 0; PS 0] [[PS 1; PS 2; PS 3]; [PS 100; PS 200]] eq_refl) as (sh & cells & E & P).
-  vm_compute in E. injection E as _ <-. apply Permutation_length in P. vm_compute in P. discriminate.
+  intros d vs. split; [apply seq_sequential_from_length|].
+  intros k j l v Hk Hj Hkd. exists (set_nth k v d). repeat split.
+  - exact (seq_sequential_from_nth d vs 0 k j l v Hk Hj).
+  - now apply nth_error_set_nth_same.
+  - apply set_nth_length.
+  - intros k' Hn. apply nth_error_set_nth_other. intros E. apply Hn. now symmetry.
 Qed.
-Print Assumptions C07_sequential_mode_refuted.
+Print Assumptions C07_sequential_one_at_a_time.
 
-(* it never agrees: two or more parameters with values => strictly fewer runs *)
-Theorem C07_sequential_mode_never_agrees :
+Example C07_sequential_nonvacuous :
+  dask_params_cfg cfg_repaired (Sequential [PS 7; PS 8] [[PS 1; PS 2; PS 3]; [PS 10; PS 12]])
+  = Some ([5], [[PS 1; PS 8]; [PS 2; PS 8]; [PS 3; PS 8]; [PS 7; PS 10]; [PS 7; PS 12]])
+  /\ dask_params_cfg cfg_round1 (Sequential [PS 7; PS 8] [[PS 1; PS 2; PS 3]; [PS 10; PS 12]])
+  = Some ([2], [[PS 1; PS 10]; [PS 2; PS 12]]).
+Proof. vm_compute. split; reflexivity. Qed.
+
+(* why the row matters: zipping the lists (round 1) NEVER agrees with two or more non-empty lists -- strictly
+   fewer runs *)
+Theorem C07_sequential_zip_never_agrees :
   forall (defaults : list pval) l1 l2 rest, l1 <> [] -> l2 <> [] ->
   length (dask_sequential (l1 :: l2 :: rest)) < length (seq_sequential defaults (l1 :: l2 :: rest)).
 Proof. intros. now apply sequential_fewer_runs. Qed.
-Print Assumptions C07_sequential_mode_never_agrees.
+Print Assumptions C07_sequential_zip_never_agrees.
 
-(* strongest true restriction: a single parameter -- same runs, same order, same index *)
-Theorem C07_sequential_mode_partial :
-  forall (d : pval) (l : list pval),
-  dask_params (Sequential [d] [l]) = Some ([length l], seq_params (Sequential [d] [l])).
+(* ---- binding of the values of a cell to the parameter keys.  The dask path zips a mapping (dimension names)
+   with the tuple POSITIONALLY.  For any keys without repeats: when the zipped mapping iterates in the order in
+   which the tuples were built, every key receives its own value ... *)
+Theorem C07_binding_sound :
+  forall (V : Type) (c : dask_cfg) (keys types_order names_order zip_order tuple_keys : list nat) (tuple : list V),
+  NoDup keys -> length tuple = length keys ->
+  (cfg_types_steps_order c = true -> types_order = keys) ->
+  (cfg_names_keep_order c = true -> names_order = types_order) ->
+  (cfg_same_mapping c = true -> zip_order = names_order) ->
+  (cfg_tuple_steps_order c = true -> tuple_keys = keys) ->
+  binding_ok c = true ->
+  received (cfg_bind c) zip_order tuple_keys keys tuple = map Some tuple.
+Proof. intros V c keys to no zo tk tuple. apply received_sound. Qed.
+Print Assumptions C07_binding_sound.
+
+(* ... and ONLY then: if the mapping iterates in any other order, the tuple (0, .., n-1) is received wrongly *)
+Theorem C07_binding_position_needs_order :
+  forall keys order, NoDup keys -> Permutation order keys -> order <> keys ->
+  received BindPosition order keys keys (seq 0 (length keys)) <> map Some (seq 0 (length keys)).
+Proof. intros keys order Hnd Hp Hne H. apply Hne. now apply received_position_complete. Qed.
+Print Assumptions C07_binding_position_needs_order.
+
+Example C07_binding_nonvacuous :
+  (* keys gain=0, a.level=1, b.level=2; a mapping that lists the two 'level' keys first *)
+  received BindPosition [1; 2; 0] [0; 1; 2] [0; 1; 2] [PS 6; PS 100; PS 1000] = [Some (PS 1000); Some (PS 6); Some (PS 100)]
+  /\ received BindPosition [0; 1; 2] [0; 1; 2] [0; 1; 2] [PS 6; PS 100; PS 1000] = [Some (PS 6); Some (PS 100); Some (PS 1000)]
+  /\ NoDup [0; 1; 2] /\ Permutation [1; 2; 0] [0; 1; 2].
 Proof.
-  intros d l. unfold dask_params, seq_params. rewrite (sequential_single d l).
-  unfold seq_sequential. simpl. now rewrite app_nil_r, map_length.
+  split; [reflexivity|]. split; [reflexivity|]. split; [repeat constructor; simpl; intuition discriminate|].
+  apply Permutation_sym. apply (Permutation_cons_app [1; 2] []). reflexivity.
 Qed.
-Print Assumptions C07_sequential_mode_partial.
 
 (* ===================================================================== 2. schedules *)
 
@@ -265,3 +317,115 @@ Example C07_seeded_nonvacuous :
   /\ let p := run_procs Z lcg_seed lcg_next lcg_out witness_schedule [(7%Z, start Z (1%Z, 1)); (9%Z, start Z (2%Z, 1))] in
      all_done Z (map snd p) = true /\ map fst p = [7; 9]%Z /\ map (fun x => outs (snd x)) p = [[1]; [2]]%Z.
 Proof. vm_compute. repeat split; reflexivity. Qed.
+
+(* ===================================================================== 4. parallel result = sequential result *)
+
+(* END TO END, all three modes, any parameter space (repeats, one-element lists, any lengths and defaults), any
+   keys without repeats, any run function f of the values received (C06: the run works on its own copy), EVERY
+   completion order of the tasks: the parameter array exists, has one cell per entry of its shape, its cells are
+   the sequential runs (product: as a set, without a double cell, a permutation when no list repeats a value;
+   sequential and custom: the same list); the assembled result holds under every cell's label the result of the run
+   that received exactly that cell's values; and, as label -> data maps, the parallel result equals the
+   sequential one. *)
+Theorem C07_parallel_equals_sequential :
+  forall (B : Type) (f : list (option pval) -> B) (c : dask_cfg)
+         (keys types_order names_order zip_order tuple_keys : list nat) (m : mode),
+  cfg_seq c = SeqEnumerate -> cfg_prod c = LevelsDedup -> cfg_custom c = ByPlaceholder -> binding_ok c = true ->
+  NoDup keys -> mode_wf (length keys) m ->
+  (cfg_types_steps_order c = true -> types_order = keys) ->
+  (cfg_names_keep_order c = true -> names_order = types_order) ->
+  (cfg_same_mapping c = true -> zip_order = names_order) ->
+  (cfg_tuple_steps_order c = true -> tuple_keys = keys) ->
+  exists sh cells,
+    dask_params_cfg c m = Some (sh, cells)
+    /\ length cells = prodn sh
+    /\ (forall t, In t cells <-> In t (seq_params m))
+    /\ match m with
+       | Product vs => NoDup cells /\ (forallb nodupb vs = true -> Permutation cells (seq_params m))
+       | _ => cells = seq_params m
+       end
+    /\ forall completion,
+         Permutation completion (dask_tasks (cfg_bind c) zip_order tuple_keys keys cells) ->
+         dask_result f cells completion = map (fun t => (t, Some (f (map Some t)))) cells
+         /\ forall t r, In (t, Some r) (dask_result f cells completion) <-> In (t, r) (seq_result f m).
+Proof. intros B f c keys to no zo tk m. apply parallel_equals_sequential. Qed.
+Print Assumptions C07_parallel_equals_sequential.
+
+Example C07_parallel_equals_sequential_nonvacuous :
+  let m := Product [[PS 2; PS 1; PS 2]; [PS 5]] in
+  let f := fun (r : list (option pval)) => length r in
+  mode_wf 2 m /\ NoDup [0; 1] /\ binding_ok cfg_repaired = true
+  /\ dask_params_cfg cfg_repaired m = Some ([2; 1], [[PS 1; PS 5]; [PS 2; PS 5]])
+  /\ dask_result f [[PS 1; PS 5]; [PS 2; PS 5]]
+        (rev (dask_tasks BindPosition [0; 1] [0; 1] [0; 1] [[PS 1; PS 5]; [PS 2; PS 5]]))
+      = [([PS 1; PS 5], Some 2); ([PS 2; PS 5], Some 2)].
+Proof.
+  split; [reflexivity|]. split; [repeat constructor; simpl; intuition discriminate|].
+  split; [reflexivity|]. split; vm_compute; reflexivity.
+Qed.
+
+(* ---- the code AS IT IS NOW (rows regenerated by translator/c07.py into Gen_C07.v) has these properties *)
+Theorem C07_sequential_as_coded : cfg_seq src_cfg = SeqEnumerate.
+Proof. vm_compute. reflexivity. Qed.
+Print Assumptions C07_sequential_as_coded.
+
+Theorem C07_product_as_coded : cfg_prod src_cfg = LevelsDedup.
+Proof. vm_compute. reflexivity. Qed.
+Print Assumptions C07_product_as_coded.
+
+Theorem C07_custom_as_coded : cfg_custom src_cfg = ByPlaceholder.
+Proof. vm_compute. reflexivity. Qed.
+Print Assumptions C07_custom_as_coded.
+
+Theorem C07_binding_as_coded :
+  binding_ok src_cfg = true
+  /\ forall (V : Type) (keys : list nat) (tuple : list V), NoDup keys -> length tuple = length keys ->
+     received (cfg_bind src_cfg) keys keys keys tuple = map Some tuple.
+Proof.
+  split; [vm_compute; reflexivity|]. intros V keys tuple Hnd Hl.
+  apply (received_sound src_cfg keys keys keys keys keys tuple Hnd Hl); auto.
+Qed.
+Print Assumptions C07_binding_as_coded.
+
+(* ... hence, for the code as it is now: for every mode and parameter space, every set of distinct keys, every run
+   function and EVERY completion order, the parallel result and the sequential result are the same label -> data map *)
+Theorem C07_parallel_equals_sequential_as_coded :
+  forall (B : Type) (f : list (option pval) -> B) (keys : list nat) (m : mode),
+  NoDup keys -> mode_wf (length keys) m ->
+  exists sh cells,
+    dask_params_cfg src_cfg m = Some (sh, cells)
+    /\ length cells = prodn sh
+    /\ (forall t, In t cells <-> In t (seq_params m))
+    /\ forall completion,
+         Permutation completion (dask_tasks (cfg_bind src_cfg) keys keys keys cells) ->
+         forall t r, In (t, Some r) (dask_result f cells completion) <-> In (t, r) (seq_result f m).
+Proof.
+  intros B f keys m Hnd Hwf.
+  destruct (C07_parallel_equals_sequential B f src_cfg keys keys keys keys keys m
+              C07_sequential_as_coded C07_product_as_coded C07_custom_as_coded (proj1 C07_binding_as_coded) Hnd Hwf
+              (fun _ => eq_refl) (fun _ => eq_refl) (fun _ => eq_refl) (fun _ => eq_refl))
+    as (sh & cells & E & L & S & _ & R).
+  exists sh, cells. repeat split; try assumption; try apply S; apply (R completion H).
+Qed.
+Print Assumptions C07_parallel_equals_sequential_as_coded.
+
+(* the schedule theorems of section 2 speak about the code as it is now: tasks own one cell each and the file index
+   is the row-major position (C07_schedule_independent, C07_rank_bijective), islands are pushed in submission order
+   (C07_island_order), the batch evaluator cuts and re-joins row-major with chunks of >= 1 row (C07_bfe_chunking) *)
+Theorem C07_schedule_rows_as_coded :
+  src_file_index_row_major = true /\ src_islands_by_submission = true /\ src_bfe_row_major = true.
+Proof. vm_compute. repeat split; reflexivity. Qed.
+Print Assumptions C07_schedule_rows_as_coded.
+
+(* file index of the cell with multi-index mi = its flat position in the cells = rank sh mi, for the array the
+   code builds now, any product space *)
+Theorem C07_file_index_as_coded :
+  forall vs sh cells, dask_params_cfg src_cfg (Product vs) = Some (sh, cells) ->
+  forall mi, valid_index sh mi -> rank sh mi < length cells /\ unrank sh (rank sh mi) = mi.
+Proof.
+  intros vs sh cells E mi Hv.
+  destruct (C07_product_mode src_cfg vs C07_product_as_coded) as (sh' & cells' & E' & _ & _ & L & _).
+  rewrite E in E'. injection E' as <- <-. rewrite L.
+  split; [now apply rank_lt|now apply unrank_rank].
+Qed.
+Print Assumptions C07_file_index_as_coded.
